@@ -15,7 +15,7 @@ import numpy as np
 from harness import buildlib as B
 from harness.common import Run
 
-CONE = ["Base.v", "IR.v", "Show.v", "Build.v", "Sem.v", "Plan.v", "Named.v", "Validate.v", "BuildFacts.v", "SemFacts.v", "FuncFacts.v", "NamedFacts.v"]
+CONE = ["Base.v", "IR.v", "Show.v", "Build.v", "Sem.v", "Plan.v", "Named.v", "Validate.v", "BuildFacts.v", "SemFacts.v", "FuncFacts.v", "NamedFacts.v", "DfsFacts.v", "CompilePres.v", "ScopeFacts.v", "EmitFacts.v", "ReachFacts.v", "DiscoverFacts.v", "CoverageFacts.v"]
 PROPS = "props/C01.v"
 
 
@@ -78,6 +78,13 @@ def run(run: Run) -> int:
     n = 250 if run.tier == "quick" else 4000
     cases, hist = gen_cases(run, n)
     mism = B.correspondence(run, "c01", cases)
+    built = [c for c in cases if c.coq is not None and c.model_proto is not None]
+    cprem = B.cover_premises(run, "c01cov", [c.coq for c in built])
+    for c, ok in zip(built, cprem):
+        if not ok:
+            run.fail("corr", "C01/coverage-premises-not-met", "a program that builds does not satisfy the premises of "
+                     "C01_no_application_is_dropped_by_construction", B.describe(c))
+            break
     nprng = np.random.RandomState(run.seed)
     out_hist = collections.Counter()
     distinct, n_exec, n_bad = set(), 0, 0
@@ -108,6 +115,7 @@ def run(run: Run) -> int:
                 "and reused outside, multi-output, optional/variadic inputs, initializers); distinct by rendering; non-trivial = has a subgraph",
         "traces_validated_against_impl": len([c for c in cases if c.coq is not None]) - len(mism),
         "disagreements_checked": len(mism),
+        "coverage_theorem_premises_met": f"{sum(cprem)} of {len(built)} programs that build",
         "models_executed_ort_vs_numpy": n_exec, "bindings_per_model": 2, "semantic_mismatches": n_bad,
         "input_distribution": {"operators": hist, "outcomes": dict(out_hist)},
         "samples": [B.describe(c) for c in cases[:2]],
